@@ -80,6 +80,71 @@ def range_of_next(fn, flow, sym, t):
     return None
 
 
+def _path_tests_output_size(fn, plain, sym, blocks, res_size_atoms):
+    """some two-way decision on the path compares a value that depends on the output's limb count"""
+    from .rad import _deep_atoms
+    for b in blocks:
+        t = fn.blocks[b]["t"]
+        if not t or t["k"] != "Switch":
+            continue
+        for r in plain.op_roots(t["o"]):
+            if r[0] != "bin":
+                return True  # a decision on something that is not a comparison (an Option, a flag): not judged
+            st = fn.blocks[r[1]]["s"][r[2]][2]
+            for o in st["o"]:
+                pl = sym.operand(o)
+                ats = _deep_atoms(pl)
+                if any(a in res_size_atoms for a in ats) or any(a[0] == "f" and a[1] in ("len", "is_empty") for a in ats):
+                    return True
+    return False
+
+
+def early_return(p, fn):
+    """for shape functions outside the limb-range idiom: a returning path (loop bodies traversed) on which the output is handed to nothing - no limb accessor, no callee, no
+    closure - and on which no decision looked at the output's size.  Returns a message or None."""
+    from . import sc
+    si = ShapeInfo(fn)
+    if si.out is None:
+        return None
+    out_l = si.out[0]
+    flow = Flow(fn, transparent=VIEW_T + ("index_mut", "iter_mut", "into_iter", "deref_mut"))
+    plain = Flow(fn)
+    sym = Sym(fn, plain)
+
+    def is_out(op):
+        return any(r[0] == "param" and r[1] == out_l for r in flow.op_roots(op))
+    touch = set()
+    res_size_atoms = set()
+    for bi, t in fn.calls():
+        d = fn.callee_def(t) or {}
+        nm = d.get("n", "")
+        if nm == "size" and t["a"] and is_out(t["a"][0]):
+            for mono in sym.local(t["d"][0]).t:
+                res_size_atoms.update(mono)
+            continue
+        if nm in VIEW_T or nm in ("size", "n", "cols", "max_size", "base2k", "len"):
+            continue
+        if any(a[0] in ("c", "m") and is_out(a) for a in t["a"]):
+            touch.add(bi)
+    for bi, blk in enumerate(fn.blocks):
+        for st in blk["s"]:
+            if st[0] == "A" and st[2]["k"] == "Agg" and st[2].get("ak") == "Closure" and any(o[0] in ("c", "m") and is_out(o) for o in st[2].get("o", [])):
+                touch.add(bi)
+    if not touch or not res_size_atoms:
+        return None
+    g = CFG(fn)
+    paths = sc.returning_paths(fn, g, cap=400)
+    if not paths:
+        return None
+    for path in paths:
+        if any(b in touch for b in path):
+            continue
+        if _path_tests_output_size(fn, plain, sym, set(path), res_size_atoms):
+            continue
+        return "a returning path hands the output to nothing (no limb accessor, kernel or closure) and no decision on it depends on the output's size (early return): the column keeps its previous contents"
+    return None
+
+
 def analyse(p, fn, memo, depth=0):
     """WR-1 verdict of a shape function"""
     if fn.uid in memo:
@@ -369,12 +434,14 @@ def analyse(p, fn, memo, depth=0):
         if b in g.returns:
             budget[0] -= 1
             paths.append(acc)
+            path_blocks.append(frozenset(onpath))
             return
         for s2 in g.succ[b]:
             if s2 in onpath or s2 not in g.can_return():
                 continue
             walk(s2, acc, onpath | {s2})
 
+    path_blocks = []
     walk(0, (), {0})
     if budget[0] <= 0 or not paths:
         v.kind = "undecided"
@@ -383,8 +450,15 @@ def analyse(p, fn, memo, depth=0):
     rs_atom = sorted(res_size_atoms, key=repr)[0] if res_size_atoms else None
     worst = "covered"
     bounded = False
-    for path in paths:
+    for pi, path in enumerate(paths):
         if any(it.get("full") for it in path):
+            continue
+        if not path and res_size_atoms and not _path_tests_output_size(fn, plain, sym, path_blocks[pi], res_size_atoms):
+            # an early return: nothing is written and no decision on the way looked at the size of the output
+            order = {"covered": 0, "undecided": 1, "gap": 2, "skip": 3}
+            if order["gap"] > order[worst]:
+                worst, v.msg = "gap", "a returning path writes no limb of the output column and no decision on it depends on the output's size (early return): the column keeps its previous contents"
+                v.line = fn.blocks[0]["t"]["l"] if fn.blocks[0]["t"] else None
             continue
         if any(it.get("bad_callee") for it in path):
             worst = "gap"
